@@ -91,7 +91,7 @@ def build_dir(entries, chunk_size, density, with_index=True, max_per_chunk=None)
     return chunks, index_root, depth, 0, npmgl - 1
 
 def build(files0, files1=(), rng=None, version=3, chunk_size=4096, density=2, with_index=True, wbits=16, reset_frames=2,
-          rt_entry_size=8, with_rtable=True, with_spaninfo=True, control_version=2, lang=0x409, max_per_chunk=None, dirs=(), pad_to_reset=True, content_last=True, lzx_match_p=0.5, rt_slack=0, gaps=(0, 0, 0), rt_keep=None, extra_entries=(), overlong_last=0):
+          rt_entry_size=8, with_rtable=True, with_spaninfo=True, control_version=2, lang=0x409, max_per_chunk=None, dirs=(), pad_to_reset=True, content_last=True, lzx_match_p=0.5, rt_slack=0, gaps=(0, 0, 0), rt_keep=None, extra_entries=(), overlong_last=0, lzx_btypes=None):
     """files0: [(name, data)] stored uncompressed; files1: [(name, length)] stored in the LZX section (content drawn by the generator).
     returns (chm bytes, expected {name: (section, offset, length, data)})"""
     sec0 = b""; entries = []; expect = {}
@@ -107,7 +107,7 @@ def build(files0, files1=(), rng=None, version=3, chunk_size=4096, density=2, wi
         # (without a reset table the library takes the true length from SpanInfo and sizes the last frame by it: no padding then)
         padded = (total + ri - 1) // ri * ri if (pad_to_reset and with_rtable) else total
         cuts = []
-        stream, plain = lzxenc.encode(rng, wbits, padded, reset_interval=reset_frames, cuts=cuts, match_p=lzx_match_p)
+        stream, plain = lzxenc.encode(rng, wbits, padded, reset_interval=reset_frames, cuts=cuts, match_p=lzx_match_p, btypes=lzx_btypes)
         total_padded = padded
         off = 0
         for k_, (name, ln) in enumerate(files1):
